@@ -92,6 +92,12 @@ pub fn gen_c18(seed: u64, tier: &str) -> Value {
         if r.chance(1, 6) {
             faults.push(json!({"kind": "telemetry", "fault": {"f": "stall", "ms": 1000 + r.below(20000)}}));
         }
+        // an acknowledgement whose head arrives complete (2xx) but whose body is cut short: the batch was accepted
+        for _ in 0..r.below(3) {
+            if r.chance(1, 2) {
+                faults.push(json!({"kind": "telemetry", "fault": {"f": "cut_body", "n": r.below(60)}}));
+            }
+        }
         if r.chance(1, 6) {
             faults.push(json!({"kind": *r.pick(&["goalstate", "imds_instance", "sharedconfig"]), "fault": {"f": "status", "status": 503}}));
         }
